@@ -42,8 +42,9 @@ var pureExternPrefixes = []string{
 	"math/big.NewInt",
 	"(error).Error", "(fmt.Stringer).String",
 	"reflect.TypeOf", "reflect.DeepEqual", "(reflect.Type).",
+	"github.com/ethereum/go-ethereum/crypto.VerifySignature", "github.com/ethereum/go-ethereum/crypto.FromECDSAPub", "github.com/ethereum/go-ethereum/crypto.CompressPubkey", "crypto/ed25519.Verify",
 	"runtime/debug.Stack", "runtime.Caller", "runtime.FuncForPC", "(*runtime.Func).Name",
-	"sync/atomic.Load", "(*sync/atomic.Bool).Load", "(*sync/atomic.Int64).Load", "(*sync/atomic.Uint64).Load", "(*sync/atomic.Int32).Load",
+	"sync/atomic.Load", "(*sync/atomic.Int64).Store", "(*sync/atomic.Bool).Load", "(*sync/atomic.Int64).Load", "(*sync/atomic.Uint64).Load", "(*sync/atomic.Int32).Load",
 	"(*sync.Mutex).", "(*sync.RWMutex).", "(sync.Locker).",
 	"(lib.LoggerI).", "(lib.ErrorI).", "(lib/crypto.PublicKeyI).", "(lib/crypto.AddressI).",
 	"(google.golang.org/protobuf/reflect/protoreflect.Message).Descriptor",
